@@ -30,6 +30,13 @@ def main():
     eq(ev(L('Mat33'), x), [1 - 4, 2 + 0.25, 2 + 0.5])          # M33 @ x
     eq(ev(L('Mul3'), x), [1, 4, 0.25])
     eq(ev(L('Pow3'), x), [1, 4, 0.25])
+    eq(ev(L('SeqDiff3'), x), [-3, 2.5, 0.5])                    # cyclic forward difference
+    eq(ev(['pow', L('SeqDiff3'), 3], x), [-7.5, -1.5, 9])       # -3,2.5,.5 -> 5.5,-2,-3.5 -> -7.5,-1.5,9
+    eq(ev(['comptmp', L('Pow3'), L('Sc3')], x), [4, 16, 1])
+    eq(ev(['sumtmp', L('Pow3'), L('Id3')], x), [2, 2, 0.75])
+    eq(ev(['rsmultmp', L('Pow3'), '2'], x), [4, 16, 1])
+    assert not A.alias_safe(['lsmul', '2', L('SeqDiff3')]) and A.alias_safe(L('Pow3'))
+    assert A.marker(['neg', L('SeqDiff3')]) == '/unsafeleaf'
     eq(ev(L('Abs3'), x), [1, 2, 0.5])
     eq(ev(L('Const3'), x), [1, -0.5, 2])
     eq(ev(L('Aff3'), x), [0.5 - 0.5 + 1, 1 - 2 - 0.5, -4 - 0.25 + 2])
